@@ -145,6 +145,22 @@ def c05(run):
                  "rep": T(run, 100, 400)}
             c.update(extra)
             out.append({"id": 3000000 + i, "target": rng.choice(["engine", "pool"]), "gated": False, "rules": rules, "calls": [c]})
+        # ... and small rule sets with ONE failing rule in the concurrent stage, called again and again: the failure is
+        # recorded before the stage is over in every single call (whichever goroutine finishes last)
+        for i in range(T(run, 8, 80)):
+            n = rng.randint(2, 4)
+            rules = [{"name": "r%d" % (j + 1), "sal": n - j, "tpl": "A", "fk": rng.choice(["", "arith-asg", "undef-var", "panic-func"])}
+                     for j in range(n)]
+            m, extra = rng.choice([("ExecuteInverseMixModel", {}), ("ExecuteNConcurrentMSort", {"n": n - 1, "m": 1}),
+                                   ("ExecuteNConcurrentMConcurrent", {"n": n - 1, "m": 1}), ("ExecuteConcurrent", {}),
+                                   ("ExecuteMixModel", {})])
+            # the failing rule is one of the rules of the concurrent stage (never the sequential head / tail)
+            stage = rules[1:] if m == "ExecuteMixModel" else (rules if m == "ExecuteConcurrent" else rules[:n - 1])
+            bad = rng.choice(stage)["name"]
+            c = {"method": m, "via": "direct", "b": False, "names": [], "n": 0, "m": 0, "dag": [],
+                 "beh": {r["name"]: ("fail" if r["name"] == bad else "ok") for r in rules}, "tagset": [], "rep": T(run, 150, 400)}
+            c.update(extra)
+            out.append({"id": 3100000 + i, "target": rng.choice(["engine", "pool"]), "gated": False, "rules": rules, "calls": [c]})
         return out
     return _exec_check(run, mc, gen, "mix", T(run, 500, 8000), sample=T(run, 3000, 40000), extra=hammer,
                        rule="sessions enumerated by TLC from ExecMC (mix, inverse mix, the three N-M models and their selected "
